@@ -182,8 +182,9 @@ def run_tasks(fn, tasks, workers=16, timeout=60.0, batch=16, init=None, env=None
             if on_result:
                 on_result(i, r[0], r[1])
         lost = []
-    for i in lost:
-        results[i] = ("died", "result lost (worker died)")
+    if lost:
+        # never evidence about the code under test: a bookkeeping failure of this pool
+        raise RuntimeError("pool: %d results lost without a crashed worker (machinery failure)" % len(lost))
     for w in ws:
         try:
             w.parent.send(None)
